@@ -272,13 +272,23 @@ def run_create(version, key, detach, single_hop, auth, ports_forms, entry='creat
                       want_tok = t if t is not None else 'GENTOKEN%s' % n
                       if tok != want_tok:
                           viol.append(('client-token', 'supplied' if t else 'generated', 'client %s token %r, reference %r' % (n, tok, want_tok)))
-              # removal
+              # removal (for some requests Tor refuses the first DEL_ONION: the caller asks again, and Tor must be asked again)
+              if single_hop and not detach:
+                  n0 = len(sim.commands)
+                  sim.override('DEL_ONION', (551, [('line', 'injected: internal error')]))
+                  r0 = DRec(svc.remove())
+                  sim.pump()
+                  if r0.kind != 'err':
+                      viol.append(('remove-result', 'refused-del-onion', 'Tor refused DEL_ONION; remove() -> %r' % (r0.summary()[:2],)))
+                  if [c for c in sim.commands[n0:] if c.startswith('DEL_ONION')] != ['DEL_ONION %s' % sid]:
+                      viol.append(('del-onion', feat + '/refused', 'remove() wrote %r, the service id is %s' % (sim.commands[n0:], sid)))
               n0 = len(sim.commands)
               rr = DRec(svc.remove())
               sim.pump()
               dels = [c for c in sim.commands[n0:] if c.startswith('DEL_ONION')]
               if dels != ['DEL_ONION %s' % sid]:
-                  viol.append(('del-onion', feat, 'remove() wrote %r, the service id is %s' % (dels, sid)))
+                  viol.append(('del-onion', feat + ('/after-a-refused-attempt' if single_hop and not detach else ''),
+                               'remove() wrote %r, the service id is %s' % (dels, sid)))
               obs = (line, svc.hostname, repr(pk))
           if nth == 1:
               viol[nviol0:] = [(c, f + '/same-arguments-used-again', d) for c, f, d in viol[nviol0:]]
